@@ -86,7 +86,8 @@ func dtlcpHandshake(cn Conn, ccache, scache Cache[*dtlcp.SessionState], seed uin
 		}
 		return nil
 	}
-	c, sv, ce, se, r := pair.DTLCP(ccfg, scfg, func(ce, se *pair.PacketEnd) {
+	ce, se := pair.PacketPipe()
+	func(ce, se *pair.PacketEnd) {
 		se.SetLocalAddr(dtlcpAddr(dst))
 		damage := func(_ int, data []byte) [][]byte {
 			if dtlcpHasCCS(data) {
@@ -108,7 +109,10 @@ func dtlcpHandshake(cn Conn, ccache, scache Cache[*dtlcp.SessionState], seed uin
 				return [][]byte{data}
 			}
 		}
-	})
+	}(ce, se)
+	c := dtlcp.Client(ce, se.LocalAddr(), ccfg)
+	sv := dtlcp.Server(se, ce.LocalAddr(), scfg)
+	r := runPair(c.Handshake, sv.Handshake, func() { ce.Close(); se.Close() }, 30*time.Second)
 	h := HS{CErr: r.CErr, SErr: r.SErr}
 	if r.TimedOut {
 		h.CErr, h.SErr = pair.ErrTimeout, pair.ErrTimeout
@@ -119,11 +123,12 @@ func dtlcpHandshake(cn Conn, ccache, scache Cache[*dtlcp.SessionState], seed uin
 	h.CResumed, h.SResumed = cst.DidResume, sst.DidResume
 	h.Suite, h.SSuite = cst.CipherSuite, sst.CipherSuite
 	if len(cst.PeerCertificates) > 0 {
-		h.PeerDER = cst.PeerCertificates[0].Raw
+		h.PeerDER = rawOf(cst.PeerCertificates[0])
 	}
 	if len(sst.PeerCertificates) > 0 {
-		h.SPeerDER = sst.PeerCertificates[0].Raw
+		h.SPeerDER = rawOf(sst.PeerCertificates[0])
 	}
+	h.CPeer = func() []*smx509.Certificate { return c.ConnectionState().PeerCertificates }
 	h.SVerified = len(sst.VerifiedChains) > 0
 	h.VPC, h.VC = vpc, vc
 	cf, sf := dtlcp.VerifFinished(c)
